@@ -12,7 +12,10 @@ Local Open Scope Z_scope.
 (* a blocked pop: who, direction, keys, instant of the call, its timer (ms after the call) and the
    reply given when the timer fires (nil; or the watchdog marker when the harness cuts the wait) *)
 Record popper := mkPop { pp_conn : Z; pp_left : bool; pp_keys : list bytes;
-                         pp_t0 : Z; pp_timer : Z; pp_nil : reply }.
+                         pp_t0 : Z; pp_timer : Z; pp_nil : reply; pp_cut : bool }.
+(* pp_cut: the "timer" is the harness watchdog cancelling the command through its context; a
+   cancelled pop does one last polling round (what it pops then is handed to that connection,
+   although the harness no longer looks at the reply and traces the marker) *)
 Inductive pstatus :=
 | PBlocked (next : Z)                 (* instant of its next tick *)
 | PDone (r : reply) (t : Z).          (* returned r at instant t *)
@@ -58,7 +61,11 @@ Definition mstep (wd_ms : Z) (e : mev) (st : mst) : mst :=
     end
   | ETimer i t =>
     match nth_error (m_ps st) i with
-    | Some (p, PBlocked _) => mkM (m_d st) (set_nth (m_ps st) i (p, PDone (pp_nil p) t)) (m_outs st) (m_pushed st)
+    | Some (p, PBlocked _) =>
+      match (if pp_cut p then bpop_poll (pp_left p) (pp_keys p) (m_d st) t else None) with
+      | Some (r, d') => mkM d' (set_nth (m_ps st) i (p, PDone r t)) (m_outs st) (m_pushed st)
+      | None => mkM (m_d st) (set_nth (m_ps st) i (p, PDone (pp_nil p) t)) (m_outs st) (m_pushed st)
+      end
     | _ => st
     end
   | ECmd t conn args hint =>
@@ -66,7 +73,7 @@ Definition mstep (wd_ms : Z) (e : mev) (st : mst) : mst :=
     | Some (lft, keys, tmo) =>
       let cut := block_timer_ms tmo >? wd_ms in
       let p := mkPop conn lft keys t (if cut then wd_ms else block_timer_ms tmo)
-                     (if cut then blocked_marker else RNil) in
+                     (if cut then blocked_marker else RNil) cut in
       mkM (m_d st) (m_ps st ++ [(p, PBlocked (t + 100))])
           (m_outs st ++ [inr (List.length (m_ps st))]) (m_pushed st)
     | None =>
@@ -134,7 +141,9 @@ Definition out_of (ps : list (popper * pstatus)) (o : reply * Z + nat) : reply *
   match o with
   | inl x => x
   | inr i => match nth_error ps i with
-             | Some (_, PDone r t) => (r, t)
+             | Some (p, PDone r t) =>
+               (* at the watchdog instant the harness traces the marker whatever the last round popped *)
+               (if pp_cut p && (t =? pp_t0 p + pp_timer p) then blocked_marker else r, t)
              | _ => (blocked_marker, 0)        (* still blocked: cannot happen with enough fuel *)
              end
   end.
